@@ -57,6 +57,10 @@ def cases(tier, rnd):
                     "S": 1 + i % 3, "offset": rnd.choice([0, 150, 800, 900])})
     for G in ([1000] if tier == "quick" else [999, 1000, 1001, 1500]):
         out.append({"kind": "fft", "seed": rnd.randrange(1 << 30), "G": G, "kids": rnd.randint(2, 3)})
+    # large grids again, but reached through an edit history over two live trees that share the process-wide memo tables
+    for G in ([1000] if tier == "quick" else [1000, 1001, 1200]):
+        for S in ((1,) if tier == "quick" else (1, 2)):
+            out.append({"kind": "fft_hist", "seed": rnd.randrange(1 << 30), "G": G, "S": S})
     return out
 
 
@@ -104,6 +108,8 @@ def check(ctx, case):
         return check_exact(ctx, case)
     if kind == "illcond":
         return check_float(ctx, case, fft=False)
+    if kind == "fft_hist":
+        return check_fft_history(ctx, case)
     return check_float(ctx, case, fft=True)
 
 
@@ -212,6 +218,48 @@ def check_float(ctx, case, fft):
         if not fft and np.any(code < exact_root * (1 - 1e-8)):
             ctx.oracle_fail(case, f"sample {s}: reported value below the exact one on the direct path", "tree.utils._np_conv_dims", "below-exact")
             break
+    ctx.done(case, nontrivial=True, sample=case)
+
+
+def check_fft_history(ctx, case):
+    """Three top-level clones on a large grid; on a *copy* a new clone is put above two of them (their pairwise
+    convolution enters the memo table), then the original is edited so that its root is recomputed from a child set that
+    starts with the same pair: the root vector of the original (and of the copy, and of a tree rebuilt afterwards) must
+    still be the exact marginal - a memoised intermediate that was overwritten, truncated or aliased shows up here."""
+    rng = np.random.default_rng(case["seed"])
+    G, S = case["G"], case["S"]
+    vals = [rng.uniform(0.05, 1.0, size=(S, G)) for _ in range(5)]
+    data = [DataPoint(i, np.log(v)) for i, v in enumerate(vals)]
+    t = Tree((S, G))
+    names = [t.create_root_node(children=[], data=[data[i]]) for i in range(3)]
+    t2 = t.copy()
+    t2.create_root_node(children=[names[1], names[2]], data=[data[3]])
+    t.add_data_point_to_node(data[4], names[0])
+    t3 = Tree((S, G))
+    n3 = [t3.create_root_node(children=[], data=[data[i]]) for i in range(3)]
+    t3.add_data_point_to_node(data[4], n3[0])
+    ld = np.longdouble
+    prior = ld(1) / ld(G)
+
+    def conv(a, b):
+        return np.convolve(a, b)[:G]
+
+    for s in range(S):
+        r = [vals[i][s].astype(ld) * prior for i in range(3)]
+        r0 = r[0] * vals[4][s].astype(ld)
+        flat = np.cumsum(conv(conv(r[2], r[1]), r0)) * prior
+        top = vals[3][s].astype(ld) * prior * np.cumsum(conv(r[2], r[1]))
+        nested = np.cumsum(conv(top, r[0])) * prior
+        for what, tree, exact in (("original after the edit", t, flat), ("copy with the new clone", t2, nested), ("rebuilt", t3, flat)):
+            code = np.exp(tree.data_log_likelihood[s].astype(ld))
+            mask = exact >= 1e-6 * exact.max()
+            err = np.abs(code[mask] - exact[mask]) / exact[mask]
+            ctx.stat("float_entries_checked", int(mask.sum()))
+            if not np.all(np.isfinite(tree.data_log_likelihood)) or (err.size and float(err.max()) > 1e-6):
+                ctx.oracle_fail(case, f"{what}, sample {s}: root vector off by relative {float(err.max()):.2e} above the floor",
+                                "tree.utils.compute_log_S / _convolve_two_children (memo tables shared between trees)", "accuracy-history")
+                ctx.done(case, nontrivial=True, sample=case)
+                return
     ctx.done(case, nontrivial=True, sample=case)
 
 
